@@ -349,7 +349,22 @@ def run_c13(tier, seed):
                      as_quantity=bool(t % 2), table_pc=bool((t // 2) % 2), variable=bool(t % 3 == 0))
         c13_sed(rec, case2)
         rec.case(key=('sed', n_ap, case2['as_quantity'], case2['table_pc'], tuple(sorted(set(kinds)))), nontrivial=n_ap > 1)
-    return rec, REPLAY
+    # interpolate_variable as its caller uses it: the default display of plot() on aperture-dependent cubes, with the
+    # (monochromatic) filters given in micron or in nm -- the curve passes through each filter's predicted flux
+    from . import pipe_props
+    for t in range(3 if tier == 'quick' else 30):
+        n_f = int(rng.integers(2, 4))
+        case3 = dict(seed=seed, tag='c17', pseed=int(rng.integers(1, 10 ** 6)), n_ap=int(rng.integers(3, 5)), n_f=n_f, n_models=int(rng.integers(2, 5)), n_wav=int(rng.integers(8, 16)),
+                     theta=[float(x) for x in 10. ** rng.uniform(-0.3, 0.8, 4)], m=int(rng.integers(0, 4)), nsel=1 + t % 2, as_file=False, modes=['interp'],
+                     filter_order_desc=bool(t % 2), ext_unit='micron', names_unsorted=False, ap_desc=False, filt_unit=('nm' if t % 2 == 0 else 'micron'))
+        try:
+            pipe_props.c17_one(rec, case3)
+        except Exception as e:
+            rec.fail('c13_plot_crash', 'raised %s: %s' % (type(e).__name__, e), case3)
+        rec.case(key=('plot-interp', case3['filt_unit'], n_f), nontrivial=True)
+    replay = dict(REPLAY)
+    replay['c17'] = pipe_props.c17_one
+    return rec, replay
 
 
 # ---------------------------------------------------------------------------
